@@ -235,9 +235,14 @@ pub fn c15(h: &History, s: &Synth) -> Vec<Finding> {
 	};
 	let terminated = terminating && threshold.map_or(false, |k| nerr > k);
 	if !terminated {
-		// every erroring (non-urgent, non-empty) event that was accepted must be reported exactly once
+		// every error the filter actually raised (the filter was called on the event: an event still queued when the urgent
+		// quit event overtakes it is never filtered, so no error exists) must be reported exactly once
+		// ... and it was raised well before the quit: the error hook is a task of its own, and the shutdown that follows a
+		// quit request cancels it, so an error raised as the quit arrives may legitimately never be handled
+		let quit_at = h.quit_sent_at.unwrap_or(0);
+		let filtered: std::collections::BTreeSet<u64> = h.filter_calls.iter().filter(|c| c.1 + 100_000_000 < quit_at).map(|c| c.0).collect();
 		for e in &h.sent {
-			if e.ok && e.verdict == Verdict::Error && e.prio != Priority::Urgent && e.kind != Kind::Empty && !per_id.contains_key(&e.id) && h.quit_sent_at.is_some() && !h.delivery_wait_timed_out {
+			if e.ok && e.verdict == Verdict::Error && e.prio != Priority::Urgent && e.kind != Kind::Empty && !per_id.contains_key(&e.id) && filtered.contains(&e.id) && h.quit_sent_at.is_some() && !h.delivery_wait_timed_out {
 				out.push(f("C15/error-not-reported", format!("the filter error of event #{} never reached the error handler", e.id), true));
 			}
 		}
